@@ -638,6 +638,14 @@ def run_big(key):
         res["obs"] = type(e).__name__
         return res
     idx = judge(res, k, O, F, a, ns)
+    # the same orientations / volumes in Fortran memory order: the same draw
+    _cl(res, "layout_irrelevant")
+    try:
+        c_ = _FN(np.asfortranarray(O), np.asfortranarray(F), ns, 0)
+        if not all(x.tobytes() == y.tobytes() for x, y in zip(a, c_)):
+            _V(res, "layout_irrelevant", dict(k, form="fortran_order_differs"), {})
+    except Exception as e:
+        _V(res, "layout_irrelevant", dict(k, exc=type(e).__name__), {"exception": repr(e)[:200]})
     _cl(res, "repro")
     nondet = not all(x.tobytes() == y.tobytes() for x, y in zip(a, b))
     if nondet:
